@@ -125,6 +125,21 @@ pub struct LenS {
     pub high: Seq<u16>,
 }
 
+/// component-wise equality of length-decoder states (avoids extensionality obligations)
+pub open spec fn lens_eq(a: LenS, b: LenS) -> bool {
+    &&& a.choice == b.choice && a.choice2 == b.choice2 && a.high == b.high
+    &&& a.low.len() == 16 && b.low.len() == 16 && a.mid.len() == 16 && b.mid.len() == 16
+    &&& forall|i: int| 0 <= i < 16 ==> #[trigger] a.low[i] == b.low[i]
+    &&& forall|i: int| 0 <= i < 16 ==> #[trigger] a.mid[i] == b.mid[i]
+}
+pub proof fn lemma_lens_eq(a: LenS, b: LenS)
+    requires lens_eq(a, b),
+    ensures a == b,
+{
+    assert(a.low =~= b.low);
+    assert(a.mid =~= b.mid);
+}
+
 /// LenDecoder::Decode(posState): returns the length minus kMatchMinLen (2): 0..7, 8..15, 16..271.
 pub open spec fn sp_len(rc: Rc, ld: LenS, pos_state: nat, upd: bool) -> Option<(nat, Rc, LenS)> {
     match sp_bit(rc, ld.choice, upd) {
